@@ -129,32 +129,30 @@ impl Attributes {
 
         let flags = AttributeFlags::new(cursor.read_u32::<LittleEndian>().map_err(Error::Io)?);
 
-        // Calculate expected size
-        let mut expected_size = 8; // header
+        // Calculate expected size (saturating: the block count is the caller's and a
+        // count that cannot be represented can never match the data)
+        let mut expected_size = 8usize; // header
         if flags.has_crc32() {
-            expected_size += block_count * 4;
+            expected_size = expected_size.saturating_add(block_count.saturating_mul(4));
         }
         if flags.has_filetime() {
-            expected_size += block_count * 8;
+            expected_size = expected_size.saturating_add(block_count.saturating_mul(8));
         }
         if flags.has_md5() {
-            expected_size += block_count * 16;
+            expected_size = expected_size.saturating_add(block_count.saturating_mul(16));
         }
         if flags.has_patch_bit() {
-            expected_size += block_count.div_ceil(8);
+            expected_size = expected_size.saturating_add(block_count.div_ceil(8));
         }
 
         // Be more lenient with size validation to handle real-world MPQ variations
         // Some MPQ files may have slightly different patch bit calculations
-        let min_required_size = 8 + // header
-            if flags.has_crc32() { block_count * 4 } else { 0 } +
-            if flags.has_filetime() { block_count * 8 } else { 0 } +
-            if flags.has_md5() { block_count * 16 } else { 0 } +
-            if flags.has_patch_bit() {
-                // Allow for off-by-one variations in patch bit calculations
-                let ideal_patch_bytes = block_count.div_ceil(8);
-                if ideal_patch_bytes > 0 { ideal_patch_bytes - 1 } else { 0 }
-            } else { 0 };
+        let min_required_size = if flags.has_patch_bit() && block_count > 0 {
+            // Allow for off-by-one variations in patch bit calculations
+            expected_size - 1
+        } else {
+            expected_size
+        };
 
         if data.len() < min_required_size {
             return Err(Error::invalid_format(format!(
@@ -171,7 +169,7 @@ impl Attributes {
                 "Attributes file size mismatch: actual={}, expected={}, difference={} (tolerating for compatibility)",
                 data.len(),
                 expected_size,
-                expected_size as i32 - data.len() as i32
+                expected_size as i128 - data.len() as i128
             );
         }
 
